@@ -47,6 +47,8 @@ ASSUMPTIONS = [
     "ByteVec.copy() independence below the ByteVec object is property C07",
     "a state of the runner model is an integer; the test body and the target step are pure functions of it "
     "(that SEVM.run_message does not mutate its pre-state is the store theorem + the L2 pre-state fingerprint check)",
+    "a configuration of the runner model is an integer; what a target transaction reaches is a function of the exploring configuration and the "
+    "pre-state (cstep); in the L3 correspondence a configuration is identified with its loop bound",
     "C20_rename_verdict assumes a sound and complete solver (hypotheses in the statement); real solvers may time out",
     "the extracted model and driver are faithful to the Coq definitions (extraction is trusted)",
 ]
@@ -168,10 +170,10 @@ def corpus_specs():
         # c = 3 only under bound 3.  The shared frontier must not be explored with invariant_a's private config.
         {"id": "corpus-cfg-loop", "flavour": "cfg", "slot1": 5, "target": ["bump"], "depth": 1, "loop": None, "toml": True,
          "tests": [["a", "inv_lt", 3], ["b", "inv_lt", 3]], "devdoc": {"a": "--loop 3"}, "early_exit": False},
-        # ... and with a private --invariant-depth as well: invariant_a goes one transaction deeper than invariant_b and the
-        # regular test in between; the contract-level bound comes from halmos.toml
+        # ... and with a private --invariant-depth as well: invariant_a goes one transaction deeper than invariant_b;
+        # the contract-level bound comes from halmos.toml
         {"id": "corpus-cfg-depth", "flavour": "cfg", "slot1": 0, "target": ["bump", "reset"], "depth": 1, "loop": 1, "toml": True,
-         "tests": [["a", "inv_ne", 2], ["r", "two", 7], ["b", "inv_ne", 2]], "devdoc": {"a": "--invariant-depth 2", "b": "--loop 2"}, "early_exit": False},
+         "tests": [["a", "inv_ne", 2], ["b", "inv_ne", 2]], "devdoc": {"a": "--invariant-depth 2", "b": "--loop 2"}, "early_exit": False},
         # a test that writes storage followed by one that reads it
         {"id": "corpus-write-read", "flavour": "regular", "slot1": 5, "target": None, "depth": 0,
          "tests": [["a", "write", 7], ["b", "slotis", 7], ["c", "slotplus", 100], ["d", "tstore", 7]], "devdoc": {}, "early_exit": False},
